@@ -7,17 +7,29 @@
 // Op lines of a case:
 //
 //	node <id> <parent|-> <kind> <key=value …>     the pipeline (node 0 is `stream|from()`)
+//	                                              carriers (no transformation, the data only passes THROUGH them; on a batch
+//	                                              edge behind a per-point node they re-buffer every batch with edge.BatchBuffer):
+//	                                              log | httpOut ep=<name> | httpPost | union with=<id of the second parent>
 //	pt <name> <tags> <fields> <time>              one written point (database db, retention policy rp), in order
 //	run => ok|err:script|err:task|timeout         the task ran to completion after Drain()
 //	sink <id> => <message tokens>                 final view of the messages recorded under node <id>
 //	snap <id> => same | <message tokens>          the private copy taken at ingestion (same = equal to the final view)
+//
+// The sink under a carrier is a LATE consumer (`@lsink()` / `@lbsink()`): it does not take anything off its edge before
+// all points have been written, the inputs have been closed and every other sink of the task has seen its last message,
+// i.e. the carrier has emitted ALL its batches before the first one is consumed (the edge between them is a 1000-slot
+// channel in kapacitor, the producing node simply runs ahead of a slow child such as httpPost, an alert handler, a UDF).
 package c10
 
 import (
 	"fmt"
+	"io"
+	"net/http"
+	"net/http/httptest"
 	"os"
 	"strconv"
 	"strings"
+	"sync"
 	"time"
 
 	imodels "github.com/influxdata/influxdb/models"
@@ -278,6 +290,14 @@ func nodeTick(n *nodeSpec) (string, bool) {
 		if a["byName"] == "1" {
 			b.WriteString("\n    .byMeasurement()")
 		}
+	case "log":
+		b.WriteString("|log()")
+	case "httpOut":
+		b.WriteString("|httpOut(" + strLit(un(a["ep"])) + ")")
+	case "httpPost":
+		b.WriteString("|httpPost(" + strLit(postURL()) + ")")
+	case "union":
+		b.WriteString(fmt.Sprintf("|union(n%d)", atoi(a["with"])))
 	case "window":
 		if a["pc"] != "" {
 			b.WriteString("|window()\n    .periodCount(" + a["pc"] + ")\n    .everyCount(" + a["ec"] + ")")
@@ -288,6 +308,24 @@ func nodeTick(n *nodeSpec) (string, bool) {
 		return "", false
 	}
 	return b.String(), true
+}
+
+var carrierKinds = map[string]bool{"log": true, "httpOut": true, "httpPost": true, "union": true}
+
+// postSrv is the endpoint of the generated httpPost nodes: it reads the body and answers 200.
+var (
+	postOnce sync.Once
+	postSrv  *httptest.Server
+)
+
+func postURL() string {
+	postOnce.Do(func() {
+		postSrv = httptest.NewServer(http.HandlerFunc(func(w http.ResponseWriter, r *http.Request) {
+			io.Copy(io.Discard, r.Body)
+			w.WriteHeader(200)
+		}))
+	})
+	return postSrv.URL
 }
 
 func buildScript(nodes []*nodeSpec) (string, bool) {
@@ -428,6 +466,7 @@ func execCase(lines []string) (out []string) {
 		}
 		defer tm.Close()
 		svc = newRecSvc()
+		defer svc.openGate()
 		tm.TM.UDFService = svc
 		caseNo++
 		et, err := tm.StartStream(fmt.Sprintf("c10_%d", caseNo), script, []kapacitor.DBRP{{Database: "db", RetentionPolicy: "rp"}})
@@ -445,6 +484,9 @@ func execCase(lines []string) (out []string) {
 			}
 		}
 		tm.TM.Drain()
+		// the late consumers start only now: everything their producers will ever emit is already on the edges
+		svc.waitOthersDone(10 * time.Second)
+		svc.openGate()
 		done := make(chan error, 1)
 		go func() { done <- et.Wait() }()
 		select {
